@@ -35,6 +35,13 @@ token: a column with '+' and no '-' value is the class plus-signed, one with bot
 once; float columns (bedGraph, wig, narrowPeak x 3, INFO Float scalar / list) with a leading '+' on decimal and scientific texts: the
 class plus-signed-float, under the label 'float-column' instead of the format (one class whatever the format).
 
+Float texts with no digit on one side of the decimal point (zones leading-dot-float / leading-dot-float-sci / trailing-dot-float /
+trailing-dot-float-sci, label 'float-column'): '.5', '.0625', '-.75', '5.', '-3.', '.5e1', '-.5e2', '5.e1' ... (legal strtod / float()
+syntax, as SAS / Stata / bc print values below one) in every float column (bedGraph, wig, narrowPeak x 3, VCF INFO Float Number=1 and
+the elements of Number=A lists) over 1..4 records: the token alone, before and after plain and 'e'-notation neighbours, at every record
+position of 3, two such tokens at every pair of positions of 4, columns made of such tokens only; all narrowPeak float columns at once;
+every token at every element position of a 2- and 3-element INFO list.
+
 Signatures: <format>:<column>:wrong-value:<zone> | <format>:count:wrong-number-of-entries:<zone> |
 <format>:exception:<root cause type>:<zone>; zone = class of the input (plain, empty, dot+number, signed, sci,
 list-trailing-comma, crlf, header, interior-comments, comment-with-tab, short-info-text, long-float, long-float-sci,
@@ -1380,6 +1387,145 @@ def gen_plus_signed(tier, pools):
                 yield "vcf-info", info_zone(infos, INFO_DECL, zone), render("vcf", rows, hdr), (le if not quick else (le[k % 2],)), "info-" + key, label
 
 
+# ---- float texts with no digit on one side of the decimal point ('.5', '-.75', '5.', '.5e1', '5.e1'): legal strtod / float() syntax
+BARE_DOT_TOKENS = {
+    "leading-dot-float": [".5", ".25", ".0625", ".001", ".999999", "-.75", "-.5"],
+    "trailing-dot-float": ["5.", "12.", "-3.", "0.", "1234567."],
+    "leading-dot-float-sci": [".5e1", ".25e-1", "-.5e2", ".125e+3"],
+    "trailing-dot-float-sci": ["5.e1", "2.e-1", "-3.e2"],
+}
+BARE_DOT_ZONES = ["leading-dot-float", "leading-dot-float-sci", "trailing-dot-float", "trailing-dot-float-sci"]     # precedence in a mixed column
+BARE_DOT_NEIGHBOURS = ["3", "0.5", "1e-3", "12.25", "-0.75", "2.5e2", "1234.125", "-1"]     # plain and 'e' notation alternate
+
+
+def bare_dot_zone(zones):
+    for z in BARE_DOT_ZONES:
+        if z in zones:
+            return z
+    raise ValueError(zones)
+
+
+def bare_dot_columns(tier):
+    """yields (zone, [text of the float column in record 0..n-1]): the operation-free 'histories' of one float column.
+    S = a token of BARE_DOT_TOKENS, N = a neighbour with digits on both sides of the point / no point (plain and 'e' notation)
+      n = 1  S alone
+      n = 2  S after and before N (quick: after 2 neighbours per token, one plain and one 'e', before one; thorough: 4 neighbours);
+             S S' of one class
+      n = 3  S at every record position between two N (quick 1, thorough 3 neighbour pairs); S S' S'' of different classes
+      n = 4  two S at every pair of positions, N elsewhere; four S (a column without any digit before a point)"""
+    quick = tier == "quick"
+    nb = BARE_DOT_NEIGHBOURS
+    toks = [(t, z) for z in BARE_DOT_TOKENS for t in BARE_DOT_TOKENS[z]]
+    for i, (t, z) in enumerate(toks):
+        yield z, [t]
+        for d in ((0, 1) if quick else (0, 1, 2, 5)):
+            q = nb[(i + d) % len(nb)]
+            yield z, [q, t]
+            if not (quick and d):
+                yield z, [t, q]
+        same = BARE_DOT_TOKENS[z]
+        t2 = same[(same.index(t) + 1) % len(same)]
+        yield z, [t, t2]
+        for pos in range(3):
+            for d in ((0,) if quick else (0, 1, 4)):
+                others = [nb[(i + pos + d) % len(nb)], nb[(i + pos + 3 + 2 * d) % len(nb)]]
+                yield z, others[:pos] + [t] + others[pos:]
+        (t3, z3), (t4, z4) = toks[(i + 5) % len(toks)], toks[(i + 11) % len(toks)]
+        yield bare_dot_zone([z, z3, z4]), [t, t3, t4]
+    for k, (a, b) in enumerate(itertools.combinations(range(4), 2)):
+        for i in range(k % 3 if quick else 0, len(toks), 3 if quick else 1):
+            (t, z), (t2, z2) = toks[i], toks[(i + 3 + k) % len(toks)]
+            col4 = [nb[(i + k + r) % len(nb)] for r in range(4)]
+            col4[a], col4[b] = t, t2
+            yield bare_dot_zone([z, z2]), col4
+    for i in range(0, len(toks), 3 if quick else 1):
+        four = [toks[(i + 4 * r) % len(toks)] for r in range(4)]
+        yield bare_dot_zone([z for _, z in four]), [t for t, _ in four]
+
+
+def gen_bare_dot_floats(tier, pools):
+    """yields (format, zone, text, modes, focus, label).  Every column of bare_dot_columns in every float column of the delimited
+    formats (bedGraph, wig, narrowPeak signal / p / q value; the narrowPeak columns share the set between them: quick all three,
+    thorough p and q value; quick: bedGraph and wig share the columns of 3 and 4 records), the other columns at the unequal-width
+    baseline, read lazily and eagerly (1..2 records; quick and 3..4 records: one of the two, alternating); narrowPeak with all three float columns holding such tokens at once; VCF INFO: as
+    the value of the Float Number=1 key D (alone / between other keys, the key absent in no record) and as an element of the Float
+    Number=A list AF [quick: each key every 4th column of the set; thorough: the columns of 3..4 records alternate between the keys] (lists of 1..3 elements, the token at a rotating element position, the other elements neighbours or tokens
+    of the class; one record with every token at every element position of a 2- and 3-element list).  LF files.  Label
+    'float-column': one class whatever the format; zone = class of the token (leading-dot-float, trailing-dot-float, ..-sci)"""
+    quick = tier == "quick"
+    le = ("lazy", "eager")
+    label = "float-column"
+    nb = BARE_DOT_NEIGHBOURS
+    columns = list(bare_dot_columns(tier))
+    k = 0
+    for fmt, fcols in LONG_FLOAT_COLUMNS.items():
+        for j, c in enumerate(fcols):
+            name = FORMATS[fmt]["cols"][c][0]
+            for i, (zone, texts) in enumerate(columns):
+                if len(fcols) > 1 and (i % 3 != j if quick else (j > 0 and i % 2 != j - 1)):
+                    continue                # narrowPeak: quick - the three columns share the set; thorough - p and q value share it
+                if quick and len(fcols) == 1 and len(texts) > 2 and i % 2 != (fmt == "wig"):
+                    continue                # quick: bedGraph and wig share the columns of 3 and 4 records
+                rows = baseline(fmt, pools, len(texts))
+                for r, t in enumerate(texts):
+                    rows[r][c] = t
+                k += 1
+                modes = (le[k % 2],) if quick or len(texts) > 2 else (le + (("raw",) if fmt == "bedgraph" else ()))
+                yield fmt, zone, render(fmt, rows), modes, name, label
+        if len(fcols) > 1:
+            for i in range(0, len(columns), 4 if quick else 2):
+                picks = [columns[(i + 7 * j) % len(columns)] for j in range(len(fcols))]
+                n = max(len(t) for _, t in picks)
+                rows = baseline(fmt, pools, n)
+                for (_, texts), c in zip(picks, fcols):
+                    for r in range(n):
+                        rows[r][c] = texts[r] if r < len(texts) else nb[(i + r + c) % len(nb)]
+                k += 1
+                yield fmt, bare_dot_zone([z for z, _ in picks]), render(fmt, rows), ((le[k % 2],) if quick else le), "all-float-columns", label
+    hdr = vcf_header("bare-dot-float")
+    toks = [(t, z) for z in BARE_DOT_TOKENS for t in BARE_DOT_TOKENS[z]]
+    for i, (zone, texts) in enumerate(columns):
+        for key in ("D", "AF"):
+            if (quick and (i + 2 * (key == "AF")) % 4) or (not quick and len(texts) > 2 and (i + (key == "AF")) % 2):
+                continue                    # quick: each key takes every 4th column; thorough: those of 3..4 records alternate
+            infos, zones = [], [zone]
+            for r, t in enumerate(texts):
+                if key == "D":
+                    item = "D=" + t
+                else:
+                    m = 1 + (i + r) % 3
+                    elems = [nb[(i + r + e) % len(nb)] for e in range(m)]
+                    if m == 3 and i % 2:
+                        t2, z2 = toks[(i + r) % len(toks)]
+                        elems[(i // 3 + r + 1) % m] = t2
+                        zones.append(z2)
+                    elems[(i // 3 + r) % m] = t
+                    item = "AF=" + ",".join(elems)
+                infos.append(";".join([["A=7"], [], ["AA=xy", "DB"]][(i + r) % 3] + [item] + [[], ["DB"], ["MQ2=1,22"]][(i // 2 + r) % 3]))
+            rows = [vcf_fixed(r) + [infos[r]] for r in range(len(texts))]
+            k += 1
+            yield ("vcf-info", info_zone(infos, INFO_DECL, bare_dot_zone(zones)), render("vcf", rows, hdr),
+                   ((le[k % 2],) if quick or len(texts) > 2 else le), "info-" + key, label)
+    # one record: every token at every element position of an AF list of 2 and 3 elements (the list elements of all records
+    # are one column to the parser); the same with a second record
+    for i, (t, z) in enumerate(toks):
+        for m in (2, 3):
+            for pos in range(m):
+                if quick and (i + m + pos) % 2:
+                    continue
+                elems = [nb[(i + e + m) % len(nb)] for e in range(m)]
+                elems[pos] = t
+                infos = ["AF=" + ",".join(elems)]
+                zz = z
+                if (i + pos) % 2:
+                    infos.append("D=%s;AF=%s" % (nb[i % len(nb)], toks[(i + 2) % len(toks)][0]))
+                    zz = bare_dot_zone([z, toks[(i + 2) % len(toks)][1]])
+                rows = [vcf_fixed(r) + [infos[r]] for r in range(len(infos))]
+                k += 1
+                yield ("vcf-info", info_zone(infos, INFO_DECL, zz), render("vcf", rows, hdr), ((le[k % 2],) if quick else le),
+                       "info-AF-elements", label)
+
+
 def all_cases(tier):
     pools = make_pools(tier)
     for fmt in FORMATS:
@@ -1414,10 +1560,14 @@ def run(tier="quick", seed=0):
                     "of VCF INFO Integer Number=1/./2 keys) one at a time over 1..3 records with tuples of unsigned / '+'-signed (1,2,7%s "
                     "digits, '+0') / '-'-signed tokens that hold at least one '+' token - columns with '+' and no '-' value (zone plus-signed) "
                     "and with both (plus+minus-signed) - then all integer columns of a format '+'-signed at once; float columns with a "
-                    "leading '+' on decimal and scientific texts (zone plus-signed-float).  No random sampling (seed unused). "
+                    "leading '+' on decimal and scientific texts (zone plus-signed-float).  Float texts without a digit before or after "
+                    "the decimal point ('.5', '-.75', '5.', '.5e1', '5.e1'; %d tokens) in every float column (bedGraph, wig, narrowPeak x 3, "
+                    "VCF INFO Float scalar / list element) over 1..4 records: alone, before / after plain and 'e'-notation neighbours, at "
+                    "every record position of 3, two at every pair of positions of 4, columns of such tokens only (zones leading-dot-float, "
+                    "trailing-dot-float, ..-sci).  No random sampling (seed unused). "
                     "distinct = distinct (format, file text, read mode); every case is non-trivial (>= 1 record whose offsets are computed)"
                     % ("" if quick else ",10", 10 if quick else len(INFO_PATTERNS), LONG_FLOAT_ULPS, 2 if quick else 3,
-                       "" if quick else ",10,18"))
+                       "" if quick else ",10,18", sum(len(v) for v in BARE_DOT_TOKENS.values())))
     col.bounds = {"records": "1..3", "text widths": [0, 1, 2, 7], "int digits": [1, 2, 7] + ([] if quick else [10]),
                   "float tokens": FLOAT_TOKENS, "list lengths": "1..3", "samples": "0..3", "header lines": "0..3",
                   "interior comments": "every subset of the n+1 gaps, n = 1..3",
@@ -1439,6 +1589,9 @@ def run(tier="quick", seed=0):
                                             [k for k, _ in PLUS_INFO_KEYS], "1,2,7" if quick else "1,2,7,10,18",
                                             "covering subset" if quick else "every ordered pair", PLUS_FLOAT_TOKENS,
                                             sorted(LONG_FLOAT_COLUMNS)),
+                  "bare-dot float texts": "tokens %s, neighbours %s; %d column texts of 1..4 records; float columns: bedgraph.value, "
+                                          "wig.value, narrowpeak.signal/p/q_value, vcf INFO D (Number=1), AF (Number=A, lists of 1..3)"
+                                          % (BARE_DOT_TOKENS, BARE_DOT_NEIGHBOURS, len(list(bare_dot_columns(tier)))),
                   "long float texts": "%d tokens: '%%.Nf' N in %s, '%%.Ne' N in %s of %d values 5e-7..1.2e8; digit strings of %s digits; "
                                       "float columns: bedgraph.value, wig.value, narrowpeak.signal/p/q_value, vcf INFO D (Number=1), "
                                       "AF (Number=A); tolerance %d ulp"
@@ -1469,6 +1622,9 @@ def run(tier="quick", seed=0):
                 check_text(col, tmp, fmt, text, zone, modes, focus)
             # numbers written with an explicit '+' sign: a bounded block of its own (quick < 10 s, thorough < 1 min)
             for fmt, zone, text, modes, focus, label in gen_plus_signed(tier, make_pools(tier)):
+                check_text(col, tmp, fmt, text, zone, modes, focus, label)
+            # float texts without a digit before / after the decimal point: a bounded block of its own (quick < 10 s, thorough < 1 min)
+            for fmt, zone, text, modes, focus, label in gen_bare_dot_floats(tier, make_pools(tier)):
                 check_text(col, tmp, fmt, text, zone, modes, focus, label)
     finally:
         logger.setLevel(level)
